@@ -433,7 +433,7 @@ def emit_files(sigs, first_k=0):
 
 DUMP_MAIN = r'''
 #include <stdio.h>
-struct Dump { unsigned long k, gp[6], xmm[8], al, rsp; unsigned char stack[256]; } dump;
+struct Dump { unsigned long k, gp[6], xmm[8], al, rsp; unsigned char stack[1024]; } dump;
 void begin(int k) {}
 void rec(int id, unsigned long v) {}
 void lay(int who, int idx, unsigned long got, unsigned long want) { if (got != want) printf("LAYOUT %d %d %lu %lu\n", who, idx, got, want); }
@@ -445,7 +445,7 @@ static void dump_print(void) {
   for (int i = 0; i < 6; i++) printf(" %lx", dump.gp[i]);
   for (int i = 0; i < 8; i++) printf(" %lx", dump.xmm[i]);
   printf(" %lx %lx ", dump.al & 0xff, dump.rsp & 15);
-  for (int i = 0; i < 256; i++) printf("%02x", dump.stack[i]);
+  for (int i = 0; i < 1024; i++) printf("%02x", dump.stack[i]);
   printf("\n");
 }
 '''
@@ -472,7 +472,7 @@ dumpregs:
   mov %rsp, dump+128(%rip)
   lea 8(%rsp), %rsi
   lea dump+136(%rip), %rdi
-  mov $256, %ecx
+  mov $1024, %ecx
   rep movsb
   mov dump+8(%rip), %rax
   testb $1, dump(%rip)
